@@ -9,10 +9,15 @@ def gen_consts(v):
         'RDM_SUB_DEVICE_MISMATCH RDM_SRC_UID_MISMATCH RDM_DEST_UID_MISMATCH RDM_WRONG_SUB_START_CODE '
         'RDM_PACKET_TOO_SHORT RDM_PACKET_LENGTH_MISMATCH RDM_PARAM_LENGTH_MISMATCH '
         'RDM_INVALID_COMMAND_CLASS RDM_COMMAND_CLASS_MISMATCH RDM_INVALID_RESPONSE_TYPE '
-        'START_CODE SUB_START_CODE ACK_OVERFLOW ALL_RDM_SUBDEVICES PID_QUEUED_MESSAGE').split()]
+        'START_CODE SUB_START_CODE ACK_OVERFLOW ALL_RDM_SUBDEVICES PID_QUEUED_MESSAGE '
+        'RDM_ACK RDM_NACK_REASON').split()]
     ents += [(n, 'ola::rdm::RDMCommand::' + n) for n in (
         'DISCOVER_COMMAND DISCOVER_COMMAND_RESPONSE GET_COMMAND GET_COMMAND_RESPONSE '
         'SET_COMMAND SET_COMMAND_RESPONSE').split()]
+    ents += [(n, 'ola::rdm::' + n) for n in 'PID_DISC_UNIQUE_BRANCH PID_DISC_MUTE PID_DISC_UN_MUTE ROOT_RDM_DEVICE'.split()]
+    ents += [('ALL_DEVICES_UID', '((unsigned long long)ola::rdm::UID::AllDevices().ManufacturerId() << 32) | '
+                                 'ola::rdm::UID::AllDevices().DeviceId()'),
+             ('UID_SIZE', 'ola::rdm::UID::UID_SIZE')]
     ents += [('HEADER_SIZE', 'sizeof(ola::rdm::RDMCommandHeader)'),
              ('MAX_PARAM_DATA_LENGTH', 'ola::rdm::RDMCommandSerializer::MAX_PARAM_DATA_LENGTH'),
              ('CHECKSUM_LENGTH', 'ola::rdm::CHECKSUM_LENGTH'),
@@ -28,18 +33,28 @@ def gen_consts(v):
              ('OFF_param_data_length', 'offsetof(ola::rdm::RDMCommandHeader, param_data_length)')]
     return v.gen_consts_cpp(ID, ['ola/rdm/RDMCommand.h', 'ola/rdm/RDMCommandSerializer.h',
                                  'ola/rdm/RDMPacket.h', 'ola/rdm/RDMEnums.h',
-                                 'ola/rdm/RDMResponseCodes.h'],
+                                 'ola/rdm/RDMResponseCodes.h', 'ola/rdm/UID.h'],
                             ents, os.path.join(v.VERIF, 'props', ID, 'coq', 'Gen.v'))
 
 RULE = ('frames: length x message-length byte x PDL byte x command class x checksum fixed/off-by-one '
         '(boundary values of every comparison in the model) + random bodies + random/corner command '
-        'values for pack + request/response matching mutations; non-trivial = frame accepted or command '
-        'packed; distinct = distinct model output line')
+        'values for pack + request/response matching mutations; every command class x PID '
+        '{0,1,2,3,4,0x20,0x7fe0,0xffff,random} x parameter length {0,1,11,12,13,230,231} x generic/class-specific '
+        'constructor packed by every serialiser (Pack ByteString/buffer/appending, PackWithStartCode, Write) and '
+        'decoded through every entry point (Inflate, 4x InflateFromData incl. the ByteString overload, FromFrame on '
+        'frames built by both RDMFrame constructors with and without prepend_start_code); RDMFrame construction with '
+        'the first data byte over all 256 values x both constructors x both option values; requests with '
+        'OverrideOptions (sub-start code / message length / checksum); response builders (GetResponseFromData, '
+        'GetResponseWithPid, NackWithReason x2); Duplicate; operator== on one-field mutations; non-trivial = frame '
+        'accepted / command packed / equality compared; distinct = distinct model output line')
 ASSUMPTIONS = ['operator new does not fail', 'decoders are given exact-size heap copies so ASan sees any over-read']
 TRUSTED = ['modelled rather than verified: RDMCommand.cpp VerifyData/CalculateChecksum/GuessMessageType/Inflate/'
            '4x InflateFromData, RDMCommandSerializer RequiredSize/Pack/PopulateHeader (Write(IOStack) and '
-           'Pack(buffer) are compared with Pack(ByteString) by the harness), RDMReply::FromFrame, '
-           'RDMCommand::operator==; constants and header offsets regenerated into Gen.v']
+           'Pack(buffer) are compared with the model of Pack(ByteString) by the harness), PackWithStartCode, '
+           'RDMReply::FromFrame, RDMFrame constructors, GetResponseWithPid/GetResponseFromData/NackWithReason, '
+           'Duplicate, RDMCommand::operator==; constants and header offsets regenerated into Gen.v; '
+           'not modelled: RDMResponse::CombineResponses, RDMReply::DUBReply/operator==/ToString, RDMCommand::ToString/Print, '
+           'NewDiscoveryUniqueBranchRequest/NewMuteRequest/NewUnMuteRequest']
 
 CCS = [0x10, 0x11, 0x20, 0x21, 0x30, 0x31]
 
@@ -65,6 +80,7 @@ def mk_frame(rng, length, ml, pdl, cc, ckdelta, ssc=1):
 
 def rand_uid(rng):
     return rng.choice([0, 1, (1 << 48) - 1, (1 << 48) - 2, 0x7a7000000001, 0xffff00000000 | rng.randrange(1 << 32),
+                       (rng.randrange(65536) << 32) | 0xffffffff,
                        rng.randrange(1 << 48), rng.randrange(1 << 48)])
 
 def rand_cmd(rng, cc=None, n=None):
@@ -90,8 +106,139 @@ def frame_of(c, ml=None, ckdelta=0):
     ck = (0xcc + sum(bs) + ckdelta) & 0xffff
     return bs + [ck >> 8, ck & 255]
 
+
+# ---- round 2: every API entry point of the anchored files -------------------------------------
+RT_PIDS = [0, 1, 2, 3, 4, 0x20, 0x7fe0, 0xffff, None]
+RT_LENS = [0, 1, 11, 12, 13, 230, 231]
+
+def gen_entry_points(rng, tier):
+    quick = tier == 'quick'
+    # (a) pack -> every decoder entry point, every class x PID x parameter length, both constructor families
+    for rep in range(1 if quick else 6):
+        for variant in 'gs':
+            for cc in CCS:
+                for pid in RT_PIDS:
+                    for n in RT_LENS + ([] if quick else [rng.randrange(232)]):
+                        c = rand_cmd(rng, cc=cc, n=n)
+                        c['pid'] = rng.randrange(65536) if pid is None else pid
+                        if cc & 1 and rng.random() < 0.75:
+                            c['port'] = rng.randrange(4)
+                        yield 'rt %s %s' % (variant, cmd_s(c))
+    for i in range(60 if quick else 600):
+        c = rand_cmd(rng, cc=rng.choice(CCS + [0x99, 0, 0xff]), n=rng.choice([0, 5, 231, 232, 233, 300, 512]))
+        c['pid'] = rng.choice([1, 2, 3, rng.randrange(65536)])
+        yield 'rt %s %s' % (rng.choice('gs'), cmd_s(c))
+    # (b) RDMFrame constructors (prepend on/off) + RDMReply::FromFrame; first data byte over all 256 values
+    for ctor in (1, 2):
+        for pre in (0, 1):
+            for b in range(256):
+                for flavour in (0, 1):
+                    rs = rand_cmd(rng, cc=rng.choice([0x11, 0x21, 0x31]), n=rng.choice([0, 0, 1, 2, 7]))
+                    rs['port'] = rng.choice([0, 0, 0, 1, 2, 3, 4])
+                    msg = frame_of(rs)
+                    if flavour == 0:
+                        raw = [b] + msg            # a byte in front of a complete valid message
+                    else:
+                        raw = [b] + msg[1:]        # the sub-start code position itself
+                        if rng.random() < 0.5:     # keep the checksum consistent with the changed byte
+                            fix_ck(raw, raw[1])
+                    rqs = '-'
+                    if rng.random() < 0.3:
+                        rq = rand_cmd(rng, cc=rs['cc'] - 1)
+                        rq['src'], rq['dst'], rq['tn'], rq['sub'] = rs['dst'], rs['src'], rs['tn'], rs['sub']
+                        if rng.random() < 0.3: rq['tn'] = (rq['tn'] + 1) & 255
+                        rqs = cmd_s(rq)
+                    yield 'mkf %d %d %s %s' % (ctor, pre, rqs, hx(raw))
+    for i in range(200 if quick else 4000):
+        ctor = rng.choice([1, 2, 3, 4])
+        pre = rng.choice([0, 1]) if ctor < 3 else 0
+        k = rng.random()
+        if k < 0.2:
+            raw = [rng.choice([0xcc, 1, 0, rng.randrange(256)]) for _ in range(rng.choice([0, 1, 2, 3]))]
+        elif k < 0.6:
+            raw = frame_of(rand_cmd(rng, cc=rng.choice([0x11, 0x21, 0x31])))
+            raw = rng.choice([[], [], [], [0xcc], [0xcc, 0xcc], [1], [rng.randrange(256)]]) + raw
+        else:
+            L = rng.choice([22, 23, 24, 25, 26, 27, 40])
+            raw = mk_frame(rng, L, rng.choice([24, L - 2, L - 1, L]) & 255, rng.choice([0, 1, L - 25, L - 24]) & 255,
+                           rng.choice([0x11, 0x21, 0x31, 0x20]), rng.choice([0, 0, 1]), ssc=rng.choice([1, 1, 0xcc]))
+            raw = rng.choice([[], [0xcc], [0xcc]]) + raw
+        if rng.random() < 0.1:   # long data (more than 255 bytes) through the constructors
+            raw = raw + [rng.randrange(256) for _ in range(rng.choice([200, 231, 256, 280]))]
+        yield 'mkf %d %d - %s' % (ctor, pre, hx(raw))
+    # (c) requests with OverrideOptions (sub-start code, message length, checksum) through every packer + decoder
+    for i in range(300 if quick else 5000):
+        c = rand_cmd(rng, cc=rng.choice([0x10, 0x20, 0x30, 0x10, 0x20, 0x30, 0x21, 0x99]),
+                     n=rng.choice([0, 1, 2, 12, 230, 231, 232, rng.randrange(232)]))
+        n = len(c['data'])
+        c['pid'] = rng.choice([1, 2, 3, 0x20, rng.randrange(65536)])
+        ssc = rng.choice([1, 1, 1, 0, 2, 0xcc, rng.randrange(256)])
+        ml = rng.choice(['-', '-', '-', (24 + n) & 255, (23 + n) & 255, (25 + n) & 255, 23, 24, 0, 255, rng.randrange(256)])
+        good = (0xcc + sum(frame_of(c)[:-2])) & 0xffff      # checksum of the default-options frame
+        ck = rng.choice(['-', '-', '-', good, (good + 1) & 0xffff, 0, 0xffff, rng.randrange(65536)])
+        yield 'packo %s %s %d %s %s' % (rng.choice('gs'), cmd_s(c), ssc, ml, ck)
+    # (d) response builders: GetResponseFromData / GetResponseWithPid / NackWithReason (both overloads)
+    for i in range(300 if quick else 5000):
+        kind = rng.choice(['data', 'data', 'pid', 'pid', 'nack', 'nack0', 'ack0', 'nackr'])
+        if kind == 'nackr':
+            c = rand_cmd(rng, cc=rng.choice([0x11, 0x21, 0x31, 0x21, 0x31, 0x99]))
+            c['port'] = rng.choice([0, 1, 2, 3, 4, 255])
+            yield 'build %s %s nackr %d' % (rng.choice('gs'), cmd_s(c), rng.randrange(32))
+            continue
+        c = rand_cmd(rng, cc=rng.choice([0x10, 0x20, 0x30, 0x10, 0x20, 0x30, 0x21, 0x99]))
+        c['pid'] = rng.choice([1, 2, 3, 0x20, 0x20, rng.randrange(65536)])
+        c['sub'] = rng.choice([0, 1, 0xffff, rng.randrange(65536)])
+        d = [rng.randrange(256) for _ in range(rng.choice([0, 1, 2, 12, 230, 231, 232, rng.randrange(232)]))]
+        mc = rng.choice([0, 1, 255, rng.randrange(256)])
+        v = rng.choice('gs')
+        if kind == 'data':
+            yield 'build %s %s data %s %d %d' % (v, cmd_s(c), hx(d), rng.randrange(4), mc)
+        elif kind == 'pid':
+            yield 'build %s %s pid %d %s %d %d' % (v, cmd_s(c), rng.choice([c['pid'], 0x20, rng.randrange(65536)]),
+                                                   hx(d), rng.choice([0, 1, 2, 3, 4, 255]), mc)
+        elif kind == 'nack':
+            yield 'build %s %s nack %d %d' % (v, cmd_s(c), rng.randrange(32), mc)
+        elif kind == 'nack0':
+            yield 'build %s %s nack0 %d' % (v, cmd_s(c), rng.randrange(32))
+        else:
+            yield 'build %s %s ack0' % (v, cmd_s(c))
+    # (f) the discovery request builders, and a NULL pointer with every claimed length around the header size
+    for i in range(60 if quick else 1000):
+        k = rng.choice(['dub', 'mute', 'unmute'])
+        port = rng.choice(['-', 1, 0, 255, rng.randrange(256)])
+        tn = rng.choice([0, 1, 255, rng.randrange(256)])
+        if k == 'dub':
+            yield 'disc dub %d %d %d %d %s' % (rand_uid(rng), rand_uid(rng), rand_uid(rng), tn, port)
+        else:
+            yield 'disc %s %d %d %d %s' % (k, rand_uid(rng), rand_uid(rng), tn, port)
+    for L in [0, 1, 19, 20, 21, 22, 23, 24, 25, 26, 255, 256, 300]:
+        yield 'null %d' % L
+    # (e) RDMCommand::operator== on commands differing in at most one field
+    for i in range(300 if quick else 5000):
+        x = rand_cmd(rng, n=rng.choice([0, 1, 2, 3, 16, 231]))
+        y = dict(x); y['data'] = list(x['data'])
+        f = rng.choice(['none', 'src', 'dst', 'tn', 'port', 'mc', 'sub', 'cc', 'pid', 'data', 'len', 'lastbyte'])
+        if f == 'src': y['src'] = rand_uid(rng)
+        elif f == 'dst': y['dst'] = rand_uid(rng)
+        elif f == 'tn': y['tn'] = (x['tn'] + rng.choice([1, 128, 255])) & 255
+        elif f == 'port': y['port'] = (x['port'] + rng.choice([1, 128, 255])) & 255
+        elif f == 'mc': y['mc'] = (x['mc'] + rng.choice([1, 128, 255])) & 255
+        elif f == 'sub': y['sub'] = x['sub'] ^ rng.choice([1, 0x100, 0x8000, 0xffff])
+        elif f == 'cc': y['cc'] = rng.choice(CCS)
+        elif f == 'pid': y['pid'] = x['pid'] ^ rng.choice([1, 0x100, 0x8000, 0xffff])
+        elif f == 'data' and x['data']:
+            k = rng.randrange(len(x['data'])); y['data'][k] ^= rng.choice([1, 0x80, 0xff])
+        elif f == 'lastbyte' and x['data']:
+            y['data'][-1] ^= rng.choice([1, 0x80, 0xff])
+        elif f == 'len':
+            y['data'] = x['data'][:-1] if x['data'] and rng.random() < 0.5 else x['data'] + [rng.randrange(256)]
+            if len(y['data']) > 231: y['data'] = x['data'][:-1]
+        yield 'eq %s %s %s %s' % (rng.choice('gs'), cmd_s(x), rng.choice('gs'), cmd_s(y))
+
 def gen_cases(rng, tier):
     quick = tier == 'quick'
+    for c in gen_entry_points(rng, tier):
+        yield c
     lengths = list(range(0, 64)) + [253, 254, 255, 256, 257, 258, 259, 300] if quick else list(range(0, 301))
     ops = ['inf', 'inf', 'inf', 'resp', 'req', 'dreq', 'dresp', 'frame']
     for L in lengths:
@@ -138,8 +285,12 @@ def gen_cases(rng, tier):
         rs['src'], rs['dst'], rs['tn'], rs['sub'] = rq['dst'], rq['src'], rq['tn'], rq['sub']
         rs['port'] = rng.choice([0, 0, 0, 1, 2, 3, 4, 255])
         for _ in range(rng.choice([0, 0, 1, 1, 2, 3])):
-            f = rng.choice(['src', 'dst', 'tn', 'sub', 'cc', 'rqsub', 'rqpid', 'rqcc'])
+            f = rng.choice(['src', 'dst', 'tn', 'sub', 'cc', 'rqsub', 'rqpid', 'rqcc', 'rqbcast', 'rsbcast'])
             if f == 'src': rs['src'] = rand_uid(rng)
+            elif f == 'rqbcast':   # request sent to a broadcast / vendorcast address that covers the responder
+                rq['dst'] = rng.choice([(1 << 48) - 1, (rs['src'] & 0xffff00000000) | 0xffffffff])
+            elif f == 'rsbcast':   # response addressed to a broadcast / vendorcast address covering the controller
+                rs['dst'] = rng.choice([(1 << 48) - 1, (rq['src'] & 0xffff00000000) | 0xffffffff])
             elif f == 'dst': rs['dst'] = rand_uid(rng)
             elif f == 'tn': rs['tn'] = (rs['tn'] + rng.choice([1, 255, 128])) & 255
             elif f == 'sub': rs['sub'] = rng.choice([0, 1, 0xffff, rng.randrange(65536)])
@@ -153,11 +304,25 @@ def gen_cases(rng, tier):
         else:
             yield 'framem %s %s' % (cmd_s(rq), hx([0xcc] + fr))
 
+# property-determined observables; outside: dup (Duplicate), set (setters), b_* (what the response / discovery
+# builders put into a command, and everything computed from it) -- a divergence there is reported without a
+# failing input ("model no longer describes the code").  tz (RDMFrame timing zeroed), isdub are not compared.
+SPEC_KEYS = ('st cmd repack packed rt inf req dreq dresp resp respbs frame framep framepb reply fd rsz pbuf psmall '
+             'wr papp pwsc pwsc2 eqback eq eqsym').split()
+INTERNAL_KEYS = ['tz', 'isdub', 'b_isdub']
+
 def nontrivial(payload, md):
+    if any(md.get(k, '').startswith('ok/') for k in ('inf', 'req', 'dreq', 'dresp', 'resp', 'frame', 'framep', 'reply',
+                                                      'b_inf', 'b_req', 'b_resp', 'b_frame')):
+        return True
+    if payload.startswith('eq '):
+        return True
     return md.get('st') == 'ok' or ('packed' in md and md['packed'] != 'none')
 
 LEVEL_TEXT = ('Coq theorems over an executable model of the RDM codec (all decoders total and free of '
-              'out-of-range reads; acceptance conditions; pack/inflate round trip for every well-formed command; '
+              'out-of-range reads; acceptance conditions; pack/inflate round trip for every well-formed command, stated '
+              'separately for each decoder entry point and for frames built by the RDMFrame constructors; responses '
+              'built by GetResponseFromData/NackWithReason match their request; '
               'canonical frames re-pack to the same bytes; request/response matching statuses), for all byte '
               'strings and all command values; model tied to the C++ by a differential correspondence check '
               '(ASan/UBSan build of /repo working tree) and constants/offsets regenerated from the headers.')
